@@ -57,7 +57,7 @@ class Prop(common.PropertyCheck):
                 rows[-1]['units'][1] = rng.choice(['a.u.', 'RFI', 'Channel'])
             if i % 2 == 1:
                 rows[-1]['n'] = 400        # exactly the documented minimum number of events: analysed like any other file
-            yield {'seed': rng.randrange(1 << 30), 'datatype': dt, 'ninst': ninst,
+            yield {'odd_headers': i % 2 == 0, 'seed': rng.randrange(1 << 30), 'datatype': dt, 'ninst': ninst,
                    'scatter_gain': rng.choice([None, None, 2, 0.5]), 'rows': rows, 'rewrite': rewrite, 'mixed_res': dt == 'I' and i % 3 == 0}
 
     def run_impl(self, case):
@@ -98,6 +98,10 @@ class Prop(common.PropertyCheck):
             facts.append({'iid': iid, 'units': units, 'file': fn, 'gf': r['gf']})
         allcols = ['Instrument ID', 'Beads ID', 'File Path', 'Gate Fraction'] + ['%s Units' % c for d in ex.inst.values() for c in d['fl']]
         samples_table = excelgen.table(srow, columns=allcols)
+        if case.get('odd_headers'):
+            # headers as typed in a spreadsheet: blanks around the channel name and before "Units" (all match the documented header pattern)
+            odd = {'FL1 Units': 'FL1  Units', 'FL2 Units': ' FL2 Units ', 'FL3 Units': 'FL3 Units  ', 'GFP-A Units': 'GFP-A   Units'}
+            samples_table = samples_table.rename(columns=odd)
         with warnings.catch_warnings():
             warnings.simplefilter('ignore')
             np.random.seed(5)
